@@ -63,6 +63,40 @@ CHECKS.update({
             'Float run of the graph on the calibration input must be finite '
             '(otherwise skipped and counted).', '7/C08'),
 })
+CHECKS.update({
+    'C04': (E1, 'bounded-exhaustive BFS over graph histories x mode assignments x '
+            'data/weight pools; every quantization parameter re-derived by a '
+            'reference model (R-arith on R-stats) and compared',
+            'Every quantized tensor of every output model (all 21 ops and '
+            'variants at depth<=2, same-scale/fixed-range chains at depth 3, '
+            'degenerate calibration ranges and weight pools) is explained by '
+            'exactly one rule of the TFLite spec and its scale/zero point/'
+            'quantized dimension must equal the independently computed value; a '
+            'coverage clause rejects quantized tensors no rule accounts for.',
+            'Trusted: vf/ref_arith.py (float64 formulas), own interpreter run for '
+            'statistics. Calibration is a single sample here (C09 covers the '
+            'moving average).', '7/C04'),
+    'C05': (E1, 'exhaustive enumeration of one-operator contexts x shapes x value '
+            'pools x all accepted modes; independent decode of every stored element',
+            'For every constant-bearing operator variant, input shape (incl. odd '
+            'element counts and non-leading quantized dimension), weight value '
+            'pool and accepted mode, every element of every rewritten constant is '
+            'decoded by an independent decoder (int4 nibbles, per-channel '
+            'dequantisation, float16) and compared with the original within the '
+            'stated step bound; buffer byte lengths must match shape and dtype.',
+            'Trusted: vf/fbparse.py decoder. Bound (1/2 or 1 step) times '
+            '(1+2^(bits-21)) for float32 evaluation in the library.', '7/C05'),
+    'C17': (E3, 'exhaustive sweep of a finite lattice (ranges x bits x symmetry x all '
+            'integer codes x tensor shapes) on the real arithmetic functions',
+            'All ordered (min,max) pairs over a 17-point grid incl. degenerate, '
+            'one-sided, tiny and huge ranges x bits {4,8,16} x symmetry; for each, '
+            'all integer codes and 5 fractional offsets per code; all tensor '
+            'shapes of rank 0-4 over dims {1,2,3} with every quantized dimension; '
+            'bias quantization over a scale grid. Laws checked against float64 '
+            'reference formulas.',
+            'Value grid is finite: real-valued inputs are covered only on the '
+            'grid (stated in DESIGN.md section 1).', '7/C17'),
+})
 NOT_YET = {
 }
 
